@@ -53,7 +53,8 @@ import (
 // engine_forkdiff_drift_c10.go); it is never allowed otherwise.
 
 type c10Elem struct {
-	typed bool // (typed) decided
+	typed  bool   // (typed) decided
+	holder string // the function that decodes the slice
 	// the fork-only parameter structure of the slice decoder, field by field:
 	// "=<text>" a constant, "?" unknown and neutral, "!" unknown and not neutral
 	param  types.Object
@@ -289,6 +290,7 @@ func c10ElementTyping(r *Run, li *c10LaxInfo) *c10Elem {
 		return res
 	}
 	s := sites[0]
+	res.holder = s.holder.Name()
 	gU, _ := up.Members[s.holder.Name()].(*ssa.Function)
 	fU, _ := up.Members[s.dec.Name()].(*ssa.Function)
 	if gU == nil || fU == nil || len(gU.Blocks) == 0 {
